@@ -35,10 +35,15 @@ def base(el):
 
 
 @st.composite
-def palette_solution(draw, ph_free, min_conc=1e-5, with_c=False):
-    """charge-balanced solution of conservative solutes: cations and anions are drawn, the balance goes to Cl or Na"""
-    cats = draw(st.lists(st.sampled_from(sorted(CATIONS)), min_size=1, max_size=3, unique=True))
-    ans = draw(st.lists(st.sampled_from(sorted(ANIONS)), min_size=0, max_size=2, unique=True))
+def palette_solution(draw, ph_free, min_conc=1e-5, fixed=None):
+    """charge-balanced solution of conservative solutes: cations and anions are drawn, the balance goes to Cl or Na.
+    fixed = (cations, anions): use exactly these elements (both lists then contain Na and Cl, so that the balance does
+    not introduce an element)"""
+    if fixed is None:
+        cats = draw(st.lists(st.sampled_from(sorted(CATIONS)), min_size=1, max_size=3, unique=True))
+        ans = draw(st.lists(st.sampled_from(sorted(ANIONS)), min_size=0, max_size=2, unique=True))
+    else:
+        cats, ans = fixed
     comps = {}
     q = 0.0
     for e in cats:
@@ -108,7 +113,7 @@ def column(draw, tier="quick", fam=None):
         shifts = draw(st.integers(1, smax))
         _diffusion(draw, case, n, mode, quick)
         if draw(st.integers(0, 3)) == 0 and n >= 1:
-            _stagnant(draw, case, n, mode)
+            _stagnant(draw, case, n, mode, solids=(fam == "solids"))
     elif fam == "mixing":
         # single diffusion coefficient, anything else free
         n = draw(st.integers(1, nmax))
@@ -142,7 +147,17 @@ def column(draw, tier="quick", fam=None):
     ph_free = draw(st.booleans())
     npal = draw(st.integers(2, 4))
     with_c = fam == "solids"
-    case["palette"] = [draw(palette_solution(ph_free)) for _ in range(npal)]
+    fixed = None
+    if case["multi_d"] is not None:
+        # known finding (replays/C11/known/mcd-*.json): multicomponent diffusion repairs negative amounts by adding mass --
+        # -implicit puts 1e-13 mol of every diffusing element into each cell that lacks it, the explicit scheme silently
+        # resets amounts down to -1e-12 mol to zero (front of an element entering cells that lack it) -> with -multi_d
+        # all solutions of the column contain the same elements (at different concentrations)
+        cats = sorted(set(draw(st.lists(st.sampled_from(sorted(CATIONS)), min_size=0, max_size=2, unique=True))) | {"Na"})
+        ans = sorted(set(draw(st.lists(st.sampled_from(sorted(ANIONS)), min_size=0, max_size=2, unique=True))) | {"Cl"})
+        fixed = (cats, ans)
+        case.setdefault("excluded", []).append("multi_d_with_element_absent_in_a_cell")
+    case["palette"] = [draw(palette_solution(ph_free, fixed=fixed)) for _ in range(npal)]
     # 2-4 distinct solutions spread over the cells as contiguous blocks (fronts) or interleaved
     if draw(st.booleans()) or n < 2:
         case["assign"] = [draw(st.integers(0, npal - 1)) for _ in range(n)]
@@ -179,7 +194,12 @@ def column(draw, tier="quick", fam=None):
 def _diffusion(draw, case, n, mode, quick, allow_zero=False):
     """diffusion coefficient / multi_d parameters and a time step that gives a bounded number of mixing sub-steps"""
     lmin = min(case["lengths"])
-    mf = draw(cg.logu(0.02, 6.0 if quick else 12.0, 3))    # target D*dt/dx^2
+    # target D*dt/dx^2: log-uniform, or a value next to the stability limits of the explicit schemes (number of
+    # sub-mixes = 1 + floor(1.5 * (m_left + m_right)), 2.25 with a constant boundary)
+    if draw(st.booleans()):
+        mf = draw(cg.logu(0.02, 6.0 if quick else 12.0, 3))
+    else:
+        mf = draw(st.sampled_from([0.22, 0.3, 0.33, 0.34, 0.45, 0.5, 0.55, 0.6, 0.64, 0.66, 0.67, 0.7, 0.9, 1.0, 1.3, 1.34, 2.0, 2.7]))
     if mode == "single":
         if allow_zero and draw(st.integers(0, 4)) == 0:
             case["diffc"] = 0.0
@@ -204,7 +224,7 @@ def _diffusion(draw, case, n, mode, quick, allow_zero=False):
         case["implicit"] = {"max_mixf": draw(st.sampled_from([1.0, 1.0, 0.7, 0.5, 0.3])), "min_lm": draw(st.sampled_from([-30.0, -30.0, -20.0]))}
 
 
-def _stagnant(draw, case, n, mode):
+def _stagnant(draw, case, n, mode, solids=False):
     md = case["multi_d"]
     # with multi_d a MIX fraction f between a mobile and a stagnant cell is read as a geometry factor: the fraction that
     # is effectively exchanged for a species is f * Dw(species) / default_Dw (find_J), so f is scaled down by
@@ -213,7 +233,14 @@ def _stagnant(draw, case, n, mode):
     if md is not None:
         md["pors"] = None
         scale = md["Dw"] / 9.31e-9
-    if draw(st.booleans()):
+    exch = draw(st.booleans())
+    if exch and solids:
+        # known finding (replays/C11/known/stagnant-exchange-frozen-water-ratio.json): the first-order exchange factors are
+        # computed once from the water masses at the start; with reactive solids the water masses change and moles are
+        # no longer conserved to 1e-9 -> reactive solids are only combined with explicit MIX definitions
+        exch = False
+        case["excluded"] = ["solids_with_exchange_factor_stagnant"]
+    if exch:
         th_m = draw(cg.uni(0.1, 0.5, 2))
         th_im = draw(cg.uni(0.02, 0.5, 2))
         # exchange factor such that alpha*dt/(b*th_im) spans 0.003..3 (dt = timest; the sub-step is shorter)
@@ -223,6 +250,11 @@ def _stagnant(draw, case, n, mode):
                         "wratio": "por" if md is not None else draw(st.sampled_from(["por", "por", "one"]))}
     else:
         fr = [0.0, 0.01, 0.1, 0.3, 0.6] if md is None else [0.0, 0.01, 0.05, 0.1]
+        if case["implicit"] is not None:
+            # -implicit with a stagnant layer fails (non-convergence after a cell is drained) when an inner mobile cell has
+            # no MIX with its stagnant cell (transport.cpp diffuse_implicit fills A[i][0..2] for such a cell although the
+            # full-matrix layout is in use) -> every cell gets a MIX
+            fr = [0.01, 0.05, 0.1]
         case["stag"] = {"mode": "mix", "a": [float("%.3g" % (draw(st.sampled_from(fr)) * scale)) for _ in range(n)],
                         "wim": [draw(st.sampled_from([0.25, 0.5, 1.0, 1.0, 2.0] if md is None else [0.5, 1.0, 1.0, 2.0])) for _ in range(n)]}
 
